@@ -327,6 +327,44 @@ def run(rep: Report, tier: str, seed: int) -> None:
                 # except split units, where public classes import private ones only -> nothing to import in the stub
 
     stats: dict[str, int] = {}
+
+    # ---- a module whose NAME ends with the name of the module that defines the base class (string-suffix look-ups)
+    decoys = {
+        "private-base": ({"sd1/__init__.py": "", "sd1/a.py": "class _Base:\n    def from_a(self) -> int:\n        return 1\n", "sd1/Xa.py": "class _Base:\n    def from_xa(self) -> int:\n        return 1\n",
+                          "sd1/m.py": "from .a import _Base\n\n\ndef f() -> None:\n    x = _Base()\n\n\nclass CDecoy1(_Base):\n    pass\n"}, "CDecoy1", ["from_a"], ["from_xa"], None),
+        "public-base": ({"sd2/__init__.py": "", "sd2/a.py": "class Base:\n    def from_a(self) -> int:\n        return 1\n", "sd2/Xa.py": "class Base:\n    def from_xa(self) -> int:\n        return 1\n",
+                         "sd2/m.py": "from .a import Base\n\n\ndef f() -> None:\n    x = Base()\n\n\nclass CDecoy2(Base):\n    pass\n"}, "CDecoy2", [], [], "vpkg.sd2.a"),
+    }
+
+    def build_d(us):
+        files = {f"{PKG}/__init__.py": ""}
+        for name in us:
+            files.update({f"{PKG}/{k}": v for k, v in decoys[name][0].items()})
+        return files, PKG
+
+    def on_d(us, opts, obs: Obs, files) -> None:
+        if obs.outcome != "completed":
+            rep.violation("run-completes", f"run:{obs.outcome}:{obs.crash_sig()}|decoy", {"exc": obs.exc_type + ": " + obs.exc_msg}, files=files, src_rel=PKG, opts=opts, obs=obs)
+            return
+        idx = index_stubs(obs)
+        for name in us:
+            _, cls, must, must_not, import_from = decoys[name]
+            rep.case(f"decoy:{name}", True)
+            hits = idx.find(cls, "class")
+            if len(hits) != 1:
+                rep.extra["class_not_found(C03)"] = rep.extra.get("class_not_found(C03)", 0) + 1
+                continue
+            path, _, d = hits[0]
+            members = [m.py_name for m in d.members]
+            mod = idx.modules[path]
+            imports = [(i.package, i.name) for i in mod.imports]
+            bad = [m for m in must if m not in members] + [m for m in must_not if m in members]
+            if bad or (import_from and not any(pk == import_from for pk, _n in imports)):
+                rep.violation("inherited-present", f"decoy:{name}", {"class": cls, "members": members, "imports": imports, "expected_members": must, "forbidden_members": must_not, "expected_import_from": import_from}, files=build_d([name])[0], src_rel=PKG, opts=opts)
+            else:
+                rep.ok("inherited-present")
+
+    run_packed([(list(decoys), Opts())], build_d, on_d, stats)
     plain = [x for x in units if x[3] != "same"]
     same = [x for x in units if x[3] == "same"]
     # equally named private classes make the analyser's name-keyed tables grow with the number of modules: small runs
